@@ -40,6 +40,7 @@ def main():
     ap.add_argument('--only', default='')
     ap.add_argument('--tier', default='quick')
     ap.add_argument('--nocheck', action='store_true')
+    ap.add_argument('--match', default='')
     a = ap.parse_args()
     sys.path.insert(0, VERIF)
     from vf import registry
@@ -50,7 +51,7 @@ def main():
     rows = []
     base = os.path.join(VERIF, 'seeded')
     for d in sorted(os.listdir(base)):
-        if not d.startswith(a.only):
+        if not d.startswith(a.only) or a.match not in d:
             continue
         sd = os.path.join(base, d)
         meta_p = os.path.join(sd, 'meta.json')
